@@ -105,12 +105,13 @@ impl Property for C14Prop {
         }
     }
     fn modes(&self) -> u32 {
-        3
+        4
     }
     fn mode_name(&self, mode: u32) -> &'static str {
         match mode {
             0 => "no preemption inside Task::ready (fault-free)",
             1 => "pipeline thread preempts submitters at the H1 yield point inside Task::ready",
+            3 => "as mode 2, submitters additionally run with a starved tokio coop budget: every acquisition of a tokio primitive inside TaskTracker / Task is a scheduling point",
             _ => "preemption at the H1 yield point and between track / send / ready inside Pipeline::process (H1b)",
         }
     }
@@ -132,7 +133,8 @@ impl Property for C14Prop {
 
     fn run(&self) {
         let preempting = ctx::mode() >= 1;
-        let all_sites = ctx::mode() == 2;
+        let all_sites = ctx::mode() >= 2;
+        let starved = ctx::mode() == 3;
         ctx::mark_nontrivial();
 
         // ---- workload ----------------------------------------------------------------------
@@ -362,7 +364,11 @@ impl Property for C14Prop {
                         }
                     }
                 };
-                handles.push(des::spawn(Tagged { id: s, inner: Box::pin(body) }));
+                if starved {
+                    handles.push(des::spawn(des::Starved::new(Tagged { id: s, inner: Box::pin(body) })));
+                } else {
+                    handles.push(des::spawn(Tagged { id: s, inner: Box::pin(body) }));
+                }
             }
             drop(pipeline);
             for (s, h) in handles.into_iter().enumerate() {
